@@ -18,7 +18,10 @@ NOT_COVERED = [
 ]
 ASSUMPTIONS = ['len argument equals the length of the supplied buffer (exact-size heap blocks under ASan)',
                'extension payload pointers supply at least len readable bytes']
-REQUIRED_THEOREMS = []
+REQUIRED_THEOREMS = ['OpusProps.C16.iter_safe', 'OpusProps.C16.iter_terminates', 'OpusProps.C16.count_parse_agree',
+                     'OpusProps.C16.generate_dry_eq_written', 'OpusProps.C16.generate_exact_and_smaller',
+                     'OpusProps.C16.generate_within', 'OpusProps.C16.generate_bad_arg']
+UNPROVED = []
 
 
 def _cases(ctx, quick, thorough):
@@ -30,15 +33,107 @@ def ties(ctx):
     out = []
     out.append(common.run_tie('ext-rand', [h, 'rand', str(ctx.seed), _cases(ctx, 2500, 40000)]))
     out.append(common.run_tie('ext-bytes', [h, 'bytes', str(ctx.seed + 1000), _cases(ctx, 30000, 600000)]))
+    # check.py looks at the first mismatches only: put those that are property violations on the
+    # implementation (a concrete failing input) in front of plain model/implementation disagreements
+    for tr in out:
+        tr.mismatches.sort(key=lambda mm: 0 if classify(ctx, tr, mm) else 1)
     return out
 
 
+def _refs(s):
+    """'id.frame.off.len;…' -> list of tuples, None if the field is an error name."""
+    if s == '-':
+        return []
+    out = []
+    for t in s.split(';'):
+        m = re.match(r'^\??(-?\d+)\.(-?\d+)\.(-?\d+)\.(-?\d+)$', t)
+        if not m:
+            return None
+        out.append(tuple(int(x) for x in m.groups()))
+    return out
+
+
+def _ext_bad(e, nbf, n, fmax=None):
+    i, f, off, ln = e
+    if not (3 <= i <= 127):
+        return 'id %d outside 3..127' % i
+    if not (0 <= f < nbf):
+        return 'extension reported for non-existent frame %d (nb_frames=%d)' % (f, nbf)
+    if ln < 0 or off < 0 or off + ln > n:
+        return 'payload [%d,%d) outside the %d-byte buffer' % (off, off + ln, n)
+    if fmax is not None and f >= fmax:
+        return 'extension of frame %d reported although frame_max=%d' % (f, fmax)
+    return None
+
+
+def _impl_predicates(inp, impl):
+    """Evaluate the clauses of the property that concern a single call on the IMPLEMENTATION's own
+    answer (no model involved).  Returns a reason string when a clause fails."""
+    t = inp.split(' ')
+    if len(t) >= 4 and t[0] == 'ext' and t[1] == 'scan':
+        nbf, n = int(t[2]), (len(t[3]) - 1) // 2
+        f = dict(x.split('=', 1) for x in impl.split(' ') if '=' in x)
+        try:
+            cnt = int(f['cnt']); cxn, cxl = f['cx'].split(':')
+            per = [] if cxl == '-' else [int(x) for x in cxl.split(',')]
+        except (KeyError, ValueError):
+            return None
+        if int(cxn) != cnt or sum(per) != cnt:
+            return 'count=%d, count_ext=%s with per-frame sum %d disagree' % (cnt, cxn, sum(per))
+        it, _, fin = f.get('it', '').rpartition('|')
+        itl, pl, pxl = _refs(it), _refs(f.get('p', '')), _refs(f.get('px', ''))
+        for l in (itl, pl, pxl):
+            for e in (l or []):
+                r = _ext_bad(e, nbf, n)
+                if r:
+                    return r
+        if itl is not None and len(itl) != cnt:
+            return 'iteration yields %d extensions, count says %d' % (len(itl), cnt)
+        if pl is not None and itl is not None and (pl != itl or fin != 'D'):
+            return 'parse succeeded with a list different from iteration (or iteration ended INVALID)'
+        if pl is None and f.get('p') == 'INVALID_PACKET' and fin != 'X':
+            return 'parse says INVALID_PACKET but iteration ended normally'
+        if pl is not None and pxl is not None and pxl != sorted(pl, key=lambda e: e[1]):
+            return 'parse_ext is not the stable sort of parse by frame'
+        if pl is not None and f.get('px') not in (None, '-') and pxl is None:
+            return 'parse succeeded but parse_ext failed: %s' % f.get('px')
+    elif len(t) >= 5 and t[0] == 'ext' and t[1] == 'iter':
+        nbf, n, ops = int(t[2]), (len(t[3]) - 1) // 2, t[4].split(',')
+        res = impl.split(' ')[1:]
+        fmax = None
+        for op, r in zip(ops, res):
+            if op.startswith('m'):
+                fmax = int(op[1:])
+            elif r.startswith('E'):
+                e = _refs(r[1:])
+                if e:
+                    why = _ext_bad(e[0], nbf, n, fmax)
+                    if why:
+                        return why
+                    if op.startswith('f') and e[0][0] != int(op[1:]):
+                        return 'find(%s) returned id %d' % (op[1:], e[0][0])
+    elif len(t) >= 6 and t[0] == 'ext' and t[1] == 'gen':
+        m = re.match(r'^OK (\d+)', impl)
+        if m and int(m.group(1)) > int(t[3]):
+            return 'generate returned %s > len=%s' % (m.group(1), t[3])
+    return None
+
+
 def classify(ctx, tie, mm):
-    # A model/implementation disagreement is not by itself a violation of the (relational) property;
-    # sanitizer reports and aborts are: "never read outside the buffer".
-    if mm.get('impl') in ('SANITIZER', 'ABORT', 'SIGSEGV') or str(mm.get('impl', '')).startswith('GUARD_OVERWRITTEN'):
-        return {'suite': tie.name, 'input': mm.get('input', ''), 'expected': mm.get('model'), 'observed': mm.get('impl'),
+    # A model/implementation disagreement is not by itself a violation of the (relational) property.
+    # Sanitizer reports and aborts are ("never read outside the buffer"); otherwise the single-call clauses
+    # of the property are evaluated on the implementation's own answer for the disagreeing input.
+    impl = str(mm.get('impl', ''))
+    if impl in ('SANITIZER', 'ABORT', 'SIGSEGV') or impl.startswith('GUARD_OVERWRITTEN'):
+        return {'suite': tie.name, 'input': mm.get('input', ''), 'expected': mm.get('model'), 'observed': impl,
                 'why': 'memory-safety failure (sanitizer report, hardening assert or guard bytes overwritten) on this input'}
+    try:
+        why = _impl_predicates(mm.get('input', ''), impl)
+    except Exception:
+        why = None
+    if why:
+        return {'suite': tie.name, 'input': mm.get('input', ''), 'expected': mm.get('model'), 'observed': impl[:2000],
+                'why': 'the implementation\'s own answer violates the property: ' + why}
     return None
 
 
